@@ -15,6 +15,9 @@ from . import lib, pty
 
 
 def run(ctx):
+    if ctx.replay:
+        # sessions are regenerated from the recorded seed; timing-dependent schedules may differ between runs
+        ctx.regenerate()
     runs = pty.model_runs(ctx, "C17")
     res = lib.tlc_parallel([r[0] for r in runs])
     for (kw, name, acts), r in zip(runs, res):
